@@ -275,14 +275,19 @@ class Ctx:
         `checker` : Coq term of type  <case type> -> bool.  Returns the list of indices whose
         check evaluates to false (empty = model and implementation agree)."""
         os.makedirs(CASES, exist_ok=True)
-        if not getattr(self, '_models_built', False):
-            # the executable models must be rebuilt against the freshly regenerated gen/*.v
-            targets = [rel[:-2] + '.vo' for rel in coq_sources() if rel.startswith('model/')]
+        built = self.__dict__.setdefault('_models_built_for', set())
+        if header not in built:
+            # the executable models this header imports (and nothing else: another property's gen/*.v may have been
+            # regenerated from a different tree by an earlier run) must be rebuilt against the freshly regenerated gen/*.v
+            hdr = os.path.join(CASES, '%s_header_%d.v' % (self.pid, os.getpid()))
+            with open(hdr, 'w') as f:
+                f.write(header + '\n')
             with CoqLock():
-                ok, out = coq_make(targets)
+                ok, out = coq_make_deps('cases/' + os.path.basename(hdr))
+            os.remove(hdr)
             if not ok:
                 self.obligation('build:models', False, out[-1500:])
-            self._models_built = True
+            built.add(header)
         files = []
         for k in range(0, len(items), chunk):
             fn = os.path.join(CASES, '%s_%s_%d_%d.v' % (self.pid, name, os.getpid(), k // chunk))
